@@ -85,7 +85,7 @@ class NPDSegment(object):
         return hdr_pack + self.payload + pad
 
     def __eq__(self, other):
-        if not isinstance(other, NPDSegment):
+        if not isinstance(other, NPDSegment) or type(other) is not type(self):
             return False
         for attr in ["timedelta", "segmentlen", "errorcode", "flags", "payload"]:
             if getattr(other, attr) != getattr(self, attr):
